@@ -42,7 +42,10 @@ def main():
         if hasattr(module, 'pre'):
             module.pre(res, a.tier)
         us = [u for u in module.units(a.tier) if not a.unit or u.name in a.unit]
-        F.run_units(res, module, us, nproc=a.nproc, budget_s=getattr(module, 'BUDGET_S', {'quick': 900, 'thorough': 1800}).get(a.tier))
+        budget = getattr(module, 'BUDGET_S', {'quick': 900, 'thorough': 1800}).get(a.tier)
+        if os.environ.get('CCT_VERIF_BUDGET_S'):
+            budget = int(os.environ['CCT_VERIF_BUDGET_S'])          # shorter exploration budget (used to smoke-test the thorough tier)
+        F.run_units(res, module, us, nproc=a.nproc, budget_s=budget)
         if hasattr(module, 'post'):
             module.post(res, a.tier)
     except Exception:
